@@ -7,6 +7,7 @@ CONSTANTS
   FaultDepth = 2
   MaxFrames = 2
   MaxCompound = 3
+  MaxHist = 3
   AllPTs = FALSE
 INVARIANTS TypeOK UniqueKind Stable DecodedWF FaultStable
 CHECK_DEADLOCK FALSE
